@@ -829,3 +829,187 @@ def r3(cx):
                      'which re-parses as the tab-removing operator with a different delimiter', loc=loc_of(h))
     elif not (pos['op'] < pos['space'] < pos['delim']):
         cx.violation(dfn, 'dash-space-misplaced', 'the separating space is not emitted between the operator and the delimiter', loc=loc_of(h))
+
+
+# ---------------------------------------------------------------------------------------
+# C06.R4 - totality: explicit panic-capable constructs of the parser are the reviewed ones,
+# and the reasons that make the fallible ones safe are re-checked on the facts.
+import re as _re
+
+_UNWRAP = _re.compile(r'core::(option::Option|result::Result)::<.*?>::(unwrap|expect)$')
+_PANIC = _re.compile(r'^core::panicking::(panic|panic_fmt|assert_failed|panic_explicit|unreachable_display|panic_display)$')
+
+
+def _unwrap_sites(F):
+    out = []
+    for b in F.bodies_in(['yash_syntax::parser']):
+        du = None
+        for blk, t in b.calls():
+            if any(_UNWRAP.search(n) for n in Q.callee_names(t)):
+                du = du or Q.DefUse(b)
+                src = Q.value_source(b, du, t['a'][0])
+                prod = (src['f'].get('def') or src['f'].get('decl') or '?') if src is not None else None
+                out.append((b, blk, t, src, prod))
+    return out
+
+
+def _closure_calls_only(F, body, du, operand, wanted):
+    """The predicate passed as `operand` (closure aggregate or fn item) is `wanted`."""
+    org = du.origin(operand)
+    if org['k'] == 'const' and org['o'].get('fn'):
+        return Q.name_matches(org['o']['fn'], wanted)
+    if org['k'] == 'agg' and org['rv'].get('ak') == 'closure':
+        cb = F.bodies.get(org['rv']['def'])
+        if cb is None:
+            return False
+        calls = [t for _, t in cb.calls()]
+        return len(calls) == 1 and Q.callee_is(calls[0], [wanted])
+    return False
+
+
+def _reason_token_present(cx, F, b, blk, t):
+    req = Q.find_calls(b, [_re.compile(r'Parser::<.*>::require_token$')])
+    if not any(rb != blk and b.dominates(rb, blk) for rb, _ in req):
+        return 'the unwrap of `self.token` is not preceded by require_token()'
+    rq = [fn for fn in F.bodies if _re.search(r'Parser::<.*>::require_token::\{closure#0\}$', fn)]
+    if len(rq) != 1:
+        return 'require_token not found'
+    rb = F.bodies[rq[0]]
+    rdu = Q.DefUse(rb)
+    writes = [s for _, _, s, kind, f in Q.field_writes(rb, '*::Parser', 'token') if kind == 'assign']
+
+    def is_some(s):
+        rv = s['rv']
+        if rv['k'] == 'agg':
+            return rv.get('variant') == 'Some'
+        if rv['k'] == 'use':
+            org = rdu.origin(rv['o'])
+            return org['k'] == 'agg' and org['rv'].get('variant') == 'Some'
+        return False
+    ok = any(is_some(s) for s in writes)
+    return None if ok else 'require_token does not store Some(..) into self.token'
+
+
+def _reason_guarded_by_predicate(wanted_pred, producer_arg_index=0):
+    def chk(cx, F, b, blk, t):
+        du = Q.DefUse(b)
+        src = Q.value_source(b, du, t['a'][0])
+        if src is None:
+            return 'producer of the unwrapped value not found'
+        # the character comes from consume_char_if(<predicate>) on the Some edge
+        cands = Q.find_calls(b, [_re.compile(r'::consume_char_if$')])
+        doms = [(cb, ct) for cb, ct in cands if cb != blk and b.dominates(cb, blk)]
+        if not doms:
+            return 'no consume_char_if dominates the unwrap'
+        cb, ct = doms[-1]
+        if not _closure_calls_only(F, b, du, ct['a'][1], wanted_pred):
+            return 'the character is accepted by a predicate other than %s, which is what makes the unwrap infallible' % (
+                wanted_pred.pattern if hasattr(wanted_pred, 'pattern') else wanted_pred)
+        return None
+    return chk
+
+
+def _reason_special_param(cx, F, b, blk, t):
+    r = _reason_guarded_by_predicate('yash_syntax::parser::lex::raw_param::is_special_parameter_char')(cx, F, b, blk, t)
+    if r:
+        return r
+    h = F.hir_of('yash_syntax::parser::lex::raw_param::is_special_parameter_char')
+    names = [H.short(c.get('def') or c.get('decl') or '') for c in H.calls(h['body'])]
+    return None if ('from_char' in names and 'is_some' in names) else \
+        'is_special_parameter_char is no longer `SpecialParam::from_char(c).is_some()`'
+
+
+def _reason_const_nonzero(cx, F, b, blk, t):
+    du = Q.DefUse(b)
+    src = Q.value_source(b, du, t['a'][0])
+    if src is None or not src['a']:
+        return 'producer not found'
+    c = src['a'][0].get('c')
+    return None if (c is not None and str(c).split('_')[0] not in ('0',)) else 'NonZero::new is not given a non-zero constant'
+
+
+# (function suffix, unwrap|expect, producer suffix) -> (max sites, reason text, checker or None)
+UNWRAP_OK = [
+    (r'Parser::<.*>::peek_token::\{closure#0\}$', 'unwrap', r'Option::<T>::as_ref$', 1,
+     'require_token() has just filled self.token', _reason_token_present),
+    (r'Parser::<.*>::take_token_raw::\{closure#0\}$', 'unwrap', None, 1,
+     'require_token() has just filled self.token', _reason_token_present),
+    (r'short_function_definition::\{closure#0\}$', 'unwrap', r'Vec::<T, A>::pop$', 1,
+     'the caller passes a simple command consisting of exactly one word (checked by debug_assert and by simple_command)', None),
+    (r'here_doc_content::\{closure#0\}$', 'expect', r'OnceCell::<T>::set$', 1,
+     'each here-document operator is queued once and its content read once', None),
+    (r'raw_param::\{closure#0\}$', 'unwrap', r'SpecialParam>::from_char$', 1,
+     'the character was accepted by is_special_parameter_char, i.e. from_char(c).is_some()', _reason_special_param),
+    (r'raw_param::\{closure#0\}$', 'unwrap', r'<impl char>::to_digit$', 1,
+     'the character was accepted by char::is_ascii_digit, so to_digit(10) is Some',
+     _reason_guarded_by_predicate('core::char::methods::<impl char>::is_ascii_digit')),
+    (r'from_str::unwrap_ready$', 'expect', r'now_or_never$', 1,
+     'FromStr parses from memory: the future never pends', None),
+    (r'LexerCore::<.*>::substitute_alias$', 'unwrap', r'NonZero::<T>::new$', 1,
+     'NonZero::new of the constant 1', _reason_const_nonzero),
+]
+
+# explicit panics (assert!/unreachable!/panic!/debug_assert!) : function suffix -> max sites (each site = 1 call)
+PANIC_OK = {
+    r'case::.*::case_command::\{closure#0\}$': 1, r'case::.*::case_item::\{closure#0\}$': 1,
+    r'case_item::\{closure#0\}::pattern_error_cause$': 1, r'Parser::<.*>::has_blank::\{closure#0\}$': 1,
+    r'Parser::<.*>::here_doc_contents::\{closure#0\}$': 1, r'Parser::<.*>::location::\{closure#0\}$': 1,
+    r'core::Rec::<T>::unwrap$': 1, r'for_loop::.*::for_loop::\{closure#0\}$': 1, r'for_loop_values::\{closure#0\}$': 1,
+    r'short_function_definition::\{closure#0\}$': 2, r'grouping::.*::grouping::\{closure#0\}$': 1,
+    r'grouping::.*::subshell::\{closure#0\}$': 1, r'arithmetic_expansion::\{closure#0\}$': 1,
+    r'Lexer::<.*>::disable_line_continuation$': 1, r'LexerCore::<.*>::consume_char$': 1,
+    r'LexerCore::<.*>::mark_line_continuation$': 1, r'LexerCore::<.*>::peek_char_at$': 1, r'LexerCore::<.*>::rewind$': 1,
+    r'LexerCore::<.*>::substitute_alias$': 1, r'single_quoted_escaped_string::\{closure#0\}$': 1,
+    r'modifier::.*::trim::\{closure#0\}$': 1, r'modifier::.*::switch::\{closure#0\}$': 1,
+    r'list::error_type_for_trailing_token_in_command_line$': 1, r'if_command::\{closure#0\}$': 1,
+    r'simple_command::.*::simple_command::\{closure#0\}$': 3, r'until_loop::\{closure#0\}$': 1, r'while_loop::\{closure#0\}$': 1,
+}
+
+
+@RS.rule('C06.R4', 'K-EFFECT+K-GUARD', 'parser totality: every unwrap/expect/panic in yash_syntax::parser is reviewed, and the guard that makes each fallible unwrap safe still holds')
+def r4(cx):
+    F = cx.F
+    seen = {}
+    for b, blk, t, src, prod in _unwrap_sites(F):
+        kind = 'expect' if any(n.endswith('::expect') for n in Q.callee_names(t)) else 'unwrap'
+        cx.fn(b.fn)
+        row = None
+        for pat, k, ppat, mx, why, chk in UNWRAP_OK:
+            if _re.search(pat, b.fn) and k == kind and ((ppat is None and prod is None) or (ppat and prod and _re.search(ppat, prod))):
+                row = (pat, k, ppat, mx, why, chk)
+                break
+        cx.site('%s: %s of %s at %s' % (b.fn, kind, (prod or '?').split('::')[-1], b.loc(t)))
+        if row is None:
+            cx.violation(b.root, '%s<-%s' % (kind, (prod or 'unknown').split('::')[-1]),
+                         'unreviewed `%s()` in the parser on the result of %s: if that can be None/Err for some input text the shell '
+                         'panics instead of reporting a syntax error' % (kind, prod or 'an unknown producer'), loc=b.loc(t))
+            continue
+        key = (row[0], row[1], row[2])
+        seen[key] = seen.get(key, 0) + 1
+        if seen[key] > row[3]:
+            cx.violation(b.root, '%s<-%s#extra' % (kind, (prod or 'unknown').split('::')[-1]), 'more `%s()` sites than reviewed (%d)' % (kind, row[3]),
+                         loc=b.loc(t))
+        if row[5] is not None:
+            bad = row[5](cx, F, b, blk, t)
+            if bad:
+                cx.violation(b.root, '%s<-%s#guard' % (kind, (prod or 'unknown').split('::')[-1]),
+                             'the reason this `%s()` cannot fail (%s) no longer holds: %s' % (kind, row[4], bad), loc=b.loc(t))
+    # explicit panics
+    counts = {}
+    for b in F.bodies_in(['yash_syntax::parser']):
+        for blk, t in b.calls():
+            if any(_PANIC.search(n) for n in Q.callee_names(t)):
+                counts.setdefault(b.fn, []).append(b.loc(t))
+    for fn, locs in sorted(counts.items()):
+        cx.site('%s: %d explicit panic/assert site(s)' % (fn, len(locs)))
+        cx.fn(fn)
+        mx = None
+        for pat, n in PANIC_OK.items():
+            if _re.search(pat, fn):
+                mx = n
+        if mx is None:
+            cx.violation(fn, 'panic-site', 'unreviewed panic!/unreachable!/assert! in the parser (%d site(s)): the parser must answer every '
+                         'input with a tree or a syntax error' % len(locs), loc=locs[0])
+        elif len(locs) > mx:
+            cx.violation(fn, 'panic-site-count', '%d explicit panic sites, %d reviewed' % (len(locs), mx), loc=locs[-1])
+    cx.floor(len(counts), 20, 'functions with explicit panic sites')
